@@ -177,7 +177,11 @@ def return_impl_shape(toks):
     o, c = fn_body(toks, "return_impl")
     j = find_seq(toks, ["unload_fiber", "(", "None", ")"], o, c)
     if j < 0:
-        raise ValueError("return_impl: unload_fiber(None) not found")
+        # not the modelled hand-over (`unload_fiber(None)?; poke(0, result)`): the constants say so and the side condition of
+        # props/C09.v fails; gen/FiberArms.v still compiles, so everything that only evaluates the model keeps working
+        k = find_seq(toks, ["unload_fiber", "("], o, c)
+        arg = texts(toks, k + 2, match_group(toks, k + 1)) if k >= 0 else []
+        return {"poke_depths": [], "poke_args": [], "unrecognised": "unload_fiber(%s)" % " ".join(arg) if k >= 0 else "no unload_fiber call"}
     e = find_seq(toks, ["return"], j, c)
     ps = pokes(toks, j, e if e > 0 else c)
     return {"poke_depths": [d for d, _ in ps], "poke_args": [" ".join(a) for _, a in ps]}
@@ -218,6 +222,86 @@ def register_shape(toks):
             "unwind_stack_reloads": unwind_ok, "unwind_stack_direct": unwind_direct}
 
 
+def all_fns(toks):
+    """[(name, body_open, body_close)] of every `fn` with a body"""
+    res = []
+    for j in find_all_seq(toks, ["fn"]):
+        if j + 2 >= len(toks) or toks[j + 1].kind != "id":
+            continue
+        k = j + 2
+        depth = 0
+        while k < len(toks):
+            t = toks[k].text
+            if toks[k].kind == "op":
+                if t in ("(", "["):
+                    depth += 1
+                elif t in (")", "]"):
+                    depth -= 1
+                elif depth == 0 and t in ("{", ";"):
+                    break
+            k += 1
+        if k < len(toks) and toks[k].text == "{":
+            res.append((toks[j + 1].text, k, match_group(toks, k)))
+    return res
+
+
+ARITY_ACCESSORS = ("set_native_arity", "take_native_arity")
+SLOT_READERS = ("native_frame_slot", "unchecked_native_frame_slot")
+ARG_READERS = ("native_arg", "unchecked_native_arg")
+SWITCH_SITES = ("load_fiber", "unload_fiber", "return_impl", "unwind_stack", "load_frame", "fiber_call", "fiber_yield",
+                "fiber_has_finished")
+
+
+def arity_shape(files):
+    """round 7: `ObjFiber.native_arity` (the arity of the native in progress) is written by call_native on the fiber active
+    BEFORE the native and cleared on the fiber active AFTER it - across a fiber switch these differ, so outside a native the
+    record is stale (YV.FiberArityProofs.recorded_arity_stale_outside_native).  Facts read from the sources:
+      direct_readers   functions that read the field / use the result of take_native_arity()   (accessors excluded)
+      slot_callers     functions that call native_frame_slot / unchecked_native_frame_slot
+      switch_sites_use the switch functions that mention the record or any accessor of the native frame
+      brackets         call_native: set_native_arity(arg_count) ; function(self, arg_count) ; take_native_arity(); in this order"""
+    direct, slot_callers, sites = [], [], []
+    brackets = False
+    for fname, toks in files:
+        for name, o, c in all_fns(toks):
+            body = texts(toks, o, c)
+            reads = False
+            for j in range(o, c):
+                t = toks[j].text
+                if t == "native_arity" and name not in ARITY_ACCESSORS:
+                    nxt = toks[j + 1].text
+                    nxt2 = toks[j + 2].text if j + 2 < len(toks) else ""
+                    if nxt == ":" or (nxt == "=" and nxt2 != "="):
+                        continue            # field declaration / initialiser / assignment
+                    if nxt in (",", "}"):
+                        continue            # struct shorthand
+                    reads = True
+                if t == "take_native_arity" and toks[j + 1].text == "(" and name not in ARITY_ACCESSORS:
+                    e = match_group(toks, j + 1)
+                    k = j
+                    while k > o and toks[k].text not in (";", "{", "}"):
+                        k -= 1
+                    stmt = texts(toks, k + 1, j)
+                    if toks[e + 1].text != ";" or "let" in stmt or "=" in stmt or "return" in stmt or stmt.count("(") > stmt.count(")"):
+                        reads = True        # the value is used (not a bare statement `x.take_native_arity();`)
+            if reads:
+                direct.append(name)
+            if any(has(body, [r, "("]) for r in SLOT_READERS) and name not in SLOT_READERS:
+                slot_callers.append(name)
+            if name in SWITCH_SITES:
+                if any(w in body for w in ("native_arity",) + ARITY_ACCESSORS + SLOT_READERS + ARG_READERS):
+                    sites.append(name)
+            if name == "call_native":
+                a = find_seq(toks, ["set_native_arity", "(", "arg_count", ")"], o, c)
+                b = find_seq(toks, ["function", "(", "self", ",", "arg_count", ")"], o, c)
+                d = find_seq(toks, ["take_native_arity", "(", ")", ";"], o, c)
+                brackets = 0 <= a < b < d and len(find_all_seq(toks, ["set_native_arity"], o, c)) == 1 \
+                    and len(find_all_seq(toks, ["take_native_arity"], o, c)) == 1
+    ok = (sorted(direct) == sorted(SLOT_READERS) and sorted(slot_callers) == sorted(ARG_READERS) and not sites and brackets)
+    return {"direct_readers": sorted(direct), "slot_callers": sorted(slot_callers), "switch_sites_use": sorted(sites),
+            "call_native_brackets": brackets, "read_only_by_native_accessors": ok}
+
+
 def fiber_call_shape(toks):
     o, c = fn_body(toks, "fiber_call")
     j = find_seq(toks, ["if", "is_new"], o, c)
@@ -252,7 +336,9 @@ def gen_fiber_arms(man):
     ri = return_impl_shape(vm)
     fc = fiber_call_shape(core)
     rg = register_shape(vm)
-    man["c09_fiber_arms"] = {"load_fiber": lf, "unload_fiber": uf, "return_impl": ri, "fiber_natives": fc, "registers": rg}
+    ar = arity_shape([("object.rs", toks_of("object.rs")), ("vm.rs", vm), ("core.rs", core)])
+    man["c09_fiber_arms"] = {"load_fiber": lf, "unload_fiber": uf, "return_impl": ri, "fiber_natives": fc, "registers": rg,
+                             "native_arity": ar}
     same_set = (rg["load_frame_sets"] == ["ip", "active_chunk", "active_module"] and rg["load_fiber_reloads"]
                 and rg["unload_fiber_reloads"] and rg["unwind_stack_reloads"]
                 and not rg["load_fiber_direct"] and not rg["unwind_stack_direct"]
@@ -301,6 +387,10 @@ def gen_fiber_arms(man):
         "Definition yield_at_most_one : bool := %s." % ("true" if fc["yield_at_most_one"] else "false"),
         "(* registers: ip, active_chunk AND active_module are restored together (load_frame) at every switch site *)",
         "Definition switch_sites_restore_same_registers : bool := %s." % ("true" if same_set else "false"),
+        "(* native_arity (the arity of the native in progress) is read only by the natives' own argument accessors; no switch",
+        "   function looks at it; call_native sets it before and clears it after the native function *)",
+        "Definition arity_readers : list string := [%s]." % "; ".join('"%s"' % r for r in ar["direct_readers"]),
+        "Definition arity_read_only_by_native_accessors : bool := %s." % ("true" if ar["read_only_by_native_accessors"] else "false"),
         "Close Scope string_scope.",
     ]
     return "\n".join(lines) + "\n"
